@@ -21,7 +21,7 @@
 #error "compile with -DPROP=17 or 18"
 #endif
 
-enum { K_SCEN = VC_USER, K_POINTS, K_MAXPOINTS, K_SHARED_ADDRS, K_SHARED_WRITTEN, K_SELFTEST_EXEC, K_WATCH_CALLS, K_TREES, K_TREES_WITH_TAG, K_OPS, K_BOUND0, K_BOUND1, K_BOUND2, K_BOUND3, K_REDUCED, K_UNREDUCED, K_CAPPED, K_SWEEP };
+enum { K_SCEN = VC_USER, K_POINTS, K_MAXPOINTS, K_SHARED_ADDRS, K_SHARED_WRITTEN, K_SELFTEST_EXEC, K_WATCH_CALLS, K_TREES, K_TREES_WITH_TAG, K_OPS, K_BOUND0, K_BOUND1, K_BOUND2, K_BOUND3, K_REDUCED, K_UNREDUCED, K_CAPPED, K_SWEEP, K_REFUSED_OPS, K_TREES_WITH_HISTORY };
 
 static uint64_t fnv(uint64_t h, const void* p, size_t n) {
   const unsigned char* b = p;
@@ -334,8 +334,61 @@ static bool tree_has_tag(const cbor_item_t* it) {
     default: return false;
   }
 }
+/* a tree is more than its contents: it has a past. Give every container of the tree the refused operations a client may have tried on it
+ * (out-of-range get / set / replace; push, set-append and map_add on a full definite container) - none of them changes what the tree
+ * denotes. Post-order, and the refused insertion is the LAST thing that touches a node, so whatever it left behind is still there when
+ * the tree is frozen */
+static void refused_history(cbor_item_t* it, cbor_item_t* x) {
+  switch (cbor_typeof(it)) {
+    case CBOR_TYPE_ARRAY: {
+      size_t n = cbor_array_size(it), al = cbor_array_allocated(it);
+      bool def = cbor_array_is_definite(it);
+      for (size_t i = 0; i < n; i++) refused_history(cbor_array_handle(it)[i], x);
+      if (cbor_array_get(it, n) != NULL || cbor_array_replace(it, n, x) || cbor_array_set(it, n + 1, x)) vf_fail(NULL, "out-of-range array operation accepted");
+      vf_cnt(K_REFUSED_OPS, 3);
+      if (def && n == al) {
+        if (cbor_array_set(it, n, x) || cbor_array_push(it, x)) vf_fail(NULL, "insertion into a full definite array accepted");
+        vf_cnt(K_REFUSED_OPS, 2);
+      }
+      break;
+    }
+    case CBOR_TYPE_MAP: {
+      size_t n = cbor_map_size(it), al = cbor_map_allocated(it);
+      bool def = cbor_map_is_definite(it);
+      for (size_t i = 0; i < n; i++) {
+        refused_history(cbor_map_handle(it)[i].key, x);
+        refused_history(cbor_map_handle(it)[i].value, x);
+      }
+      if (def && n == al) {
+        if (cbor_map_add(it, (struct cbor_pair){.key = x, .value = x})) vf_fail(NULL, "cbor_map_add on a full definite map accepted");
+        vf_cnt(K_REFUSED_OPS, 1);
+      }
+      break;
+    }
+    case CBOR_TYPE_TAG:
+      if (it->metadata.tag_metadata.tagged_item) refused_history(it->metadata.tag_metadata.tagged_item, x);
+      break;
+    default: break;
+  }
+}
 /* (a): the tree was just built in the shared arena (main context); freeze it and run every read-only op */
+static void frozen_ops_pass(cbor_item_t* t, const char* origin);
 static void frozen_ops(cbor_item_t* t, const char* origin) {
+  frozen_ops_pass(t, origin);
+  /* second pass: the same tree after refused operations (only where the tree has an array or a map) */
+  if (cbor_typeof(t) == CBOR_TYPE_ARRAY || cbor_typeof(t) == CBOR_TYPE_MAP || cbor_typeof(t) == CBOR_TYPE_TAG) {
+    cbor_item_t* x = cbor_build_uint8(7);
+    if (!x) return;
+    size_t rc0 = cbor_refcount(x);
+    refused_history(t, x);
+    if (cbor_refcount(x) != rc0) vf_fail(NULL, "a refused insertion changed the reference count of the item offered");
+    char o2[200];
+    snprintf(o2, sizeof o2, "%.150s, after refused operations on its containers", origin);
+    vf_cnt(K_TREES_WITH_HISTORY, 1);
+    frozen_ops_pass(t, o2);
+  }
+}
+static void frozen_ops_pass(cbor_item_t* t, const char* origin) {
   vf_cnt(K_TREES, 1);
   if (tree_has_tag(t)) vf_cnt(K_TREES_WITH_TAG, 1);
   uint64_t img = fnv(7, vs_shared_base(), vs_shared_used());
@@ -355,8 +408,10 @@ static void frozen_ops(cbor_item_t* t, const char* origin) {
     vs_unfreeze();
     if (e.frozen_stores) {
       char a[160];
-      vf_fail(tree_has_tag(t) ? "readonly-op-writes-tag-child-refcount" : NULL, "%s stores into the item it inspects (%u stores, first at offset %#tx of the frozen arena, from %s) [%s]", OPNAME[op],
-              e.frozen_stores, (char*)e.frozen_addr - (const char*)vs_shared_base(), symname(e.frozen_pc, a, sizeof a), origin);
+      const char* sym = symname(e.frozen_pc, a, sizeof a);
+      /* the signature of the (repaired) tag finding is reserved for stores made by the reference-count functions while a tag is being read */
+      vf_fail(tree_has_tag(t) && strstr(sym, "ref") ? "readonly-op-writes-tag-child-refcount" : NULL, "%s stores into the item it inspects (%u stores, first at offset %#tx of the frozen arena, from %s) [%s]", OPNAME[op],
+              e.frozen_stores, (char*)e.frozen_addr - (const char*)vs_shared_base(), sym, origin);
     }
 #endif
     if (fnv(7, vs_shared_base(), vs_shared_used()) != img) vf_fail(NULL, "%s left the inspected tree modified [%s]", OPNAME[op], origin);
@@ -812,7 +867,7 @@ struct vf_check vf_the_check = {
     .counters = {[VC_EVAL] = "schedules_or_operations_executed", [VC_DISTINCT] = "distinct_scenarios_or_trees", [VC_TRANS] = "scheduling_points_taken", [VC_TRACES] = "executed_on_implementation",
                  [K_SCEN] = "scenarios", [K_POINTS] = "scheduling_points", [K_MAXPOINTS] = "sum_over_workers_of_max_points_per_schedule", [K_SHARED_ADDRS] = "shared_addresses_seen_summed_over_explorations",
                  [K_SHARED_WRITTEN] = "shared_addresses_written_summed_over_explorations", [K_SELFTEST_EXEC] = "selftest_schedules", [K_WATCH_CALLS] = "store_watched_decoder_calls",
-                 [K_TREES] = "trees_frozen", [K_TREES_WITH_TAG] = "trees_containing_a_tag", [K_OPS] = "read_only_operations_on_frozen_trees", [K_BOUND0] = "explorations_completed_at_bound_0",
+                 [K_TREES] = "trees_frozen", [K_TREES_WITH_TAG] = "trees_containing_a_tag", [K_TREES_WITH_HISTORY] = "trees_frozen_again_after_refused_operations", [K_REFUSED_OPS] = "refused_operations_applied_before_freezing", [K_OPS] = "read_only_operations_on_frozen_trees", [K_BOUND0] = "explorations_completed_at_bound_0",
                  [K_BOUND1] = "explorations_completed_at_bound_1", [K_BOUND2] = "explorations_completed_at_bound_2", [K_BOUND3] = "explorations_completed_at_bound_3",
                  [K_REDUCED] = "schedules_in_reduced_explorations", [K_UNREDUCED] = "schedules_in_unreduced_explorations", [K_CAPPED] = "unreduced_explorations_capped", [K_SWEEP] = "inputs_and_trees_swept_for_stores_to_global_objects"},
     .init = init, .units = units, .unit = unit, .replay = replay, .states_counter = VC_EVAL + 1};
